@@ -229,6 +229,8 @@ func mergeReports(rs []*Report) *Report {
 			}
 			t.Reached += o.Reached
 			t.Proved += o.Proved
+			t.CrossAgreed += o.CrossAgreed
+			t.CrossSkip += o.CrossSkip
 			t.Failed += o.Failed
 			t.Unknown += o.Unknown
 		}
